@@ -248,6 +248,8 @@ def r3_caller_table(run, callee_norm, allowed, rule='R3', instance=None, by_name
         run.touch(fn)
         if w in allowed:
             run.ok(rule, inst, '%s<-%s' % (callee_norm, w), fn.loc(c), 'allowed caller: ' + allowed[w])
+        elif helper_roots(fx, w, allowed):
+            run.ok(rule, inst, '%s<-%s' % (callee_norm, w), fn.loc(c), 'non-public helper called only from allowed caller(s) %s' % sorted(helper_roots(fx, w, allowed)))
         else:
             run.violation(rule, inst, '%s<-%s' % (callee_norm, w), fn.loc(c),
                           '%s is called from %s, outside the allowed caller set {%s}' % (callee_norm, w, ', '.join(sorted(allowed)) or 'nobody'))
